@@ -1,5 +1,6 @@
 import TucanProofs.Lemmas.Permute
 import TucanProofs.Lemmas.EdgeCount
+import TucanProofs.Lemmas.ClassesEdges
 import TucanProofs.Examples
 /-!
 # C16 — the permutation helper returns a faithful relabelled copy
@@ -20,9 +21,27 @@ theorem C16_faithful (g : Graph) (hw : g.WF) (hs : g.Simple) (shuffles : List (L
   obtain ⟨rel, hl, hw', hsimp⟩ := permuteOnce_spec g hw hs s (hall s hs')
   exact ⟨_, rel, hl, hw', hsimp⟩
 
-/-- For a molecule with at least two bonds that is not a complete graph, the returned edge set differs
-from the original one. -/
-theorem C16_edges_differ (g : Graph) (shuffles : List (List Nat)) (r : Graph)
+/-- **For a molecule with at least two bonds that is not a complete graph, the returned edge set differs from
+the original one** — in terms of adjacency: if two different atoms of the argument are not bonded and it has at
+least two bonds, some pair of labels is bonded in the argument and not in the result, so the two adjacency
+relations are not the same. -/
+theorem C16_edges_differ (g : Graph) (hw : g.WF) (hs : g.Simple) (shuffles : List (List Nat))
+    (hall : ∀ s ∈ shuffles, s.Perm g.labels) (r : Graph) (h : permuteMolecule g shuffles = .ok r)
+    (h2 : 2 ≤ g.numberOfEdges)
+    (hnon : ∃ a ∈ g.labels, ∃ b ∈ g.labels, a ≠ b ∧ ¬ g.Adj a b) :
+    (∃ a b, g.Adj a b ∧ ¬ r.Adj a b) ∧ ¬ (∀ a b, g.Adj a b ↔ r.Adj a b) :=
+  permute_edges_differ g hw hs shuffles hall r h h2 (Nat.ne_of_lt (incomplete_count g hw hs hnon))
+
+/-- "not a complete graph", as the helper tests it by counting: a graph in which two different atoms are not
+bonded has fewer than `n·(n-1)/2` bonds -/
+theorem C16_incomplete_by_count (g : Graph) (hw : g.WF) (hs : g.Simple)
+    (hnon : ∃ a ∈ g.labels, ∃ b ∈ g.labels, a ≠ b ∧ ¬ g.Adj a b) :
+    2 * g.numberOfEdges < g.numberOfNodes * (g.numberOfNodes - 1) :=
+  incomplete_count g hw hs hnon
+
+/-- the same in the terms of the code: when the guard `|E| > 1 and 2|E| ≠ n(n-1)` holds, the Boolean the
+retry loop tests is `false` on the result -/
+theorem C16_loop_exit_test (g : Graph) (shuffles : List (List Nat)) (r : Graph)
     (henf : (g.numberOfEdges > 1 && 2 * g.numberOfEdges != g.numberOfNodes * (g.numberOfNodes - 1)) = true)
     (h : permuteMolecule g shuffles = .ok r) : sameEdgeSet g r = false :=
   permuteMolecule_enforced g shuffles r henf h
@@ -51,6 +70,11 @@ theorem C16_same_label_set (g : Graph) (hw : g.WF) (hs : g.Simple) (shuffles : L
     r.labels.Perm g.labels := by
   obtain ⟨π, _, hl, _, _⟩ := C16_faithful g hw hs shuffles hall r h
   rw [hl]; exact List.mergeSort_perm _ _
+
+/-- non-vacuity of `C16_edges_differ`: the example molecule has two bonds and two atoms (0 and 2) that are not
+bonded -/
+example : 2 ≤ exGraph.numberOfEdges ∧ ∃ a ∈ exGraph.labels, ∃ b ∈ exGraph.labels, a ≠ b ∧ ¬ exGraph.Adj a b :=
+  ⟨by decide, 0, by decide, 2, by decide, by decide, by unfold Graph.Adj; decide⟩
 
 /-- non-vacuity: the hypotheses are met by a concrete molecule and a concrete shuffle -/
 example : exGraph.WF ∧ exGraph.Simple ∧ (∀ s ∈ [[1, 2, 0]], s.Perm exGraph.labels) := by
